@@ -50,6 +50,10 @@ def fold(operand_results, ops):
 LOOKALIKES = [{}, [], {"a": 1}, [["a", 1]], "x", ["x"], [[]], {"a": []}, {"a": {}}, 7, "7", [7], None, [None], {"b": 2, "a": 1}, [["a", 1], ["b", 2]], "", [""], {"0": "x"}, [{"a": 1}], ["a", 1]]
 
 
+async def _alist(p_, doc):
+    return [canon(m.obj) async for m in await p_.finditer_async(doc)]
+
+
 def run_scale(ctx):
     """Compound queries whose operands produce many values (sizes around round thresholds), the left side made of
     container look-alikes of which the right side holds every other one."""
@@ -63,6 +67,27 @@ def run_scale(ctx):
             ctx.case(h("scale", n, text), True)
             replay({"text": text, "doc": doc, "comp": comp, "filter_context": None}, ctx, tag="scale")
         ctx.cell("scale", "right-hand values=%d" % n)
+    # values that differ only in the spelling of a number (10 / 10.0, 1 / true, 0 / -0.0), which the intersection's `==`
+    # treats as equal: whatever it decides, every entry point must decide the same (the eager one is the reference)
+    import jsonpath
+
+    twins_l = [{"price": 10}, {"price": 12.5}, [1, 2], [0], 1, 10, {"a": [True]}, [[1.0]], "1", None]
+    twins_r = [{"price": 10.0}, {"price": 12.5}, [True, 2], [-0.0], True, 10.0, {"a": [1]}, [[1]], 1.0, 0]
+    for n in (5, 31, 32, 33, 64, 100, 1000):
+        doc = {"L": copy.deepcopy(twins_l), "R": copy.deepcopy(twins_r) + [{"filler": i} for i in range(n - len(twins_r))]}
+        for text in ("$.L[*] & $.R[*]", "$.L[*] & $.R[*] | $.L[0]", "$.R[*] & $.L[*]", "$.L[*] | $.R[*] & $.L[*]"):
+            p_ = jsonpath.compile(text)
+            ref_ = impl.call(lambda: [canon(v) for v in p_.findall(doc)])
+            ctx.evaluation()
+            for ename, fn in (("finditer", lambda: [canon(m.obj) for m in p_.finditer(doc)]), ("query", lambda: [canon(v) for v in p_.query(doc).values()]), ("module.finditer", lambda: [canon(m.obj) for m in jsonpath.finditer(text, doc)]),
+                              ("match", lambda: [canon(p_.match(doc).obj)] if p_.match(doc) is not None else []), ("findall(text)", lambda: [canon(v) for v in p_.findall(json.dumps(doc))]),
+                              ("findall_async", lambda: [canon(v) for v in __import__("asyncio").run(p_.findall_async(doc))]), ("finditer_async", lambda: __import__("asyncio").run(_alist(p_, doc)))):
+                o = impl.call(fn)
+                want_ = ref_.value[:1] if ename == "match" and ref_.ok else ref_.value
+                if ref_.ok and (not o.ok or o.value != want_):
+                    ctx.violation("entry-points-disagree:number-spelling-twins:%s" % ename, {"twins": True, "n": n, "text": text}, {"text": text, "right_hand_values": n, "entry_point": ename, "got": o.desc() if not o.ok else repr(o.value)[:300], "findall": repr(want_)[:300]})
+                    return
+        ctx.cell("scale", "number-spelling twins, right-hand values=%d" % n)
 
 
 def run_threads(ctx, rounds):
@@ -321,6 +346,9 @@ def finalize(m, tier):
 def replay(case, ctx, tag="replay"):
     if case.get("kind") == "threads":
         run_threads(ctx, 25)
+        return
+    if case.get("twins"):
+        run_scale(ctx)
         return
     if case.get("in_place"):
         from rt.jp_oracle import check_after_incomplete_passes
